@@ -82,7 +82,7 @@ bool matches (const long double* truth, const long double* got, int n, long doub
 
 struct Tal
 {
-    long long n = 0, tr = 0, lin = 0, quad2 = 0, quad1 = 0, quad0 = 0, quadgraded = 0, cubdouble = 0, scaled = 0, cub3 = 0, cub1_qpos = 0, cub1_qneg = 0, cub1_q0 = 0, triple = 0,
+    long long n = 0, tr = 0, lin = 0, quad2 = 0, quad1 = 0, quad0 = 0, quadgraded = 0, cubdouble = 0, scaled = 0, qscaled = 0, purecube_qpos = 0, purecube_qneg = 0, cub3 = 0, cub1_qpos = 0, cub1_qneg = 0, cub1_q0 = 0, triple = 0,
               deleg = 0, illcond = 0, inexact = 0;
 };
 
@@ -146,6 +146,28 @@ template <class T> void roots_stage (const std::string& tn)
             if (!matches (truth, g, want, exact ? 0 : bound, worst))
                 R ().fail (std::string ("solveQuadratic.accuracy.") + kind, in, Msg () << truth[0] << " " << (want > 1 ? truth[1] : truth[0]), Msg () << x[0] << " " << x[1]);
             if (!exact && bound > 0) R ().note_max ("solveQuadratic<" + tn + "> error / bound", (double) std::min (worst / bound, 1e30L)); // capped: the report is JSON (no inf)
+        }
+        // Multiplying ALL coefficients by an exact power of two leaves the roots unchanged. For |k| small enough that
+        // b*b and 4*a*c stay far inside the normal range (coefficients here lie in [2^-9, 2^12]; k = +-40 for float,
+        // +-400 for double: squares within 2^+-104 resp. 2^+-824) every intermediate of the discriminant formula is
+        // scaled exactly (D by 2^2k, sqrt(D) by 2^k, q by 2^k) and the quotients q/a, c/q, -b/2a are unchanged, so count and
+        // roots must be bit-identical. Only this overflow-free range is demanded: beyond it the textbook discriminant
+        // itself leaves the floating-point range, which the statement does not address.
+        {
+            const int K = std::numeric_limits<T>::digits > 30 ? 400 : 40;
+            for (int q = 0; q < 2; ++q)
+            {
+                int k  = q ? K : -K;
+                T   as = (T) std::ldexp ((double) a, k), bs = (T) std::ldexp ((double) b, k), cs = (T) std::ldexp ((double) c, k);
+                T   xs[2] = {99, 99};
+                int cs_n  = IM::solveQuadratic (as, bs, cs, xs);
+                ++t.tr; ++t.qscaled;
+                bool same = cs_n == cnt;
+                for (int i = 0; same && i < cnt && i < 2; ++i) same = ex::same (xs[i], x[i]);
+                if (!same)
+                    R ().fail ("solveQuadratic.invariant-under-common-power-of-two-scaling", in + " all coefficients *2^" + std::to_string (k),
+                               Msg () << cnt << ": " << x[0] << " " << x[1], Msg () << cs_n << ": " << xs[0] << " " << xs[1]);
+            }
         }
         // delegation from the cubic entry point
         T   xc[3] = {55, 55, 55};
@@ -316,6 +338,33 @@ template <class T> void roots_stage (const std::string& tn)
                     run_cubic (L, Rr, Sr, Tr, 1, x, bound, false, cls);
                 }
             }
+    // ---------- pure cubes (x - c)^3 = m^3, i.e. r = -3c, s = 3c^2, t = -(c^3 + m^3): the depressed cubic is y^3 - m^3, so
+    // p = 0 EXACTLY while q = -m^3 != 0 (all of r*r, 3s, 2r^3/27, rs/3 are representable on this alphabet). This class
+    // cannot be built from the rational root alphabet above (the complex pair is c + m(-1 +- i sqrt3)/2). The one real
+    // root c + m is known exactly; its conditioning is p'(c+m) = 3 m^2, the pair lies at distance sqrt3 |m| from it and
+    // from each other. Same a-priori bound and separation rule as the other one-real-root class.
+    {
+        const Rat MS[7] = {Rat (-2), Rat (-1), Rat (-1, 2), Rat (1, 2), Rat (1), Rat (2), Rat (3)};
+        for (const Rat& c : Q)
+            for (const Rat& m : MS)
+            {
+                Rat         Rr = -(Rat (3) * c), Sr = Rat (3) * c * c, Tr = -(c * c * c + m * m * m);
+                long double cl = c.ld (), ml = m.ld ();
+                long double x[3] = {cl + ml, 0, 0};
+                long double pairmod = sqrtl (cl * cl - cl * ml + ml * ml); // |c + m w|, w a primitive cube root of unity
+                long double scale = std::max (absl (x[0]), pairmod);
+                long double bound = 64 * EPS * scale * scale * scale / (3 * ml * ml);
+                long double sep   = sqrtl (3.0L) * absl (ml);
+                if (!(bound < sep / 4)) { t.illcond += 6; continue; }
+                // q = -m^3: its sign selects which of -q/2 -+ sqrt(D) the solver takes the cube root of
+                const std::string cls = m.sign () < 0 ? "pure-cube.p=0.q>0" : "pure-cube.p=0.q<0";
+                for (const Rat& L : LEADS)
+                {
+                    (m.sign () < 0 ? t.purecube_qpos : t.purecube_qneg)++;
+                    run_cubic (L, Rr, Sr, Tr, 1, x, bound, false, cls);
+                }
+            }
+    }
     // ---------- a double root a and a simple root b, well separated from it: (x-a)^2 (x-b).
     // The double root is infinitely ill-conditioned, so neither the count nor its value is demanded; what the statement
     // still promises is judged a priori, independently of which branch the rounded discriminant selects:
@@ -383,6 +432,8 @@ template <class T> void roots_stage (const std::string& tn)
     R ().cls ("roots." + tn + ".cubic.one-real-root.q>0", t.cub1_qpos); R ().cls ("roots." + tn + ".cubic.one-real-root.q<0", t.cub1_qneg);
     R ().cls ("roots." + tn + ".cubic.one-real-root.q=0", t.cub1_q0);
     R ().cls ("roots." + tn + ".cubic.triple-root", t.triple);
+    R ().cls ("roots." + tn + ".cubic.pure-cube.p=0.q>0", t.purecube_qpos); R ().cls ("roots." + tn + ".cubic.pure-cube.p=0.q<0", t.purecube_qneg);
+    R ().cls ("roots." + tn + ".quadratic.coefficients-scaled-by-2^+-k", t.qscaled);
     R ().cls ("roots." + tn + ".delegation", t.deleg);
     R ().add ("roots." + tn + ".not_well_separated_skipped", t.illcond);
     R ().add ("roots." + tn + ".coefficient_not_representable_skipped", t.inexact);
